@@ -107,11 +107,13 @@ class AbsCal:
             And(dim(c, y, m) >= 1, dim(c, y, m) <= 31, dsm(c, y, m) >= 0, dsm(c, y, m) + dim(c, y, m) <= diy(c, y)),
         )
 
-    def ax_disj(self, y: Any, m1: Any, m2: Any) -> Any:
+    def ax_disj(self, y: Any, m1: Any, m2: Any, y2: Any = None) -> Any:
         c = self.cid
+        if y2 is None:
+            y2 = y
         return Implies(
-            And(m1 != m2, m1 >= 1, m1 <= miy(c, y), m2 >= 1, m2 <= miy(c, y)),
-            Or(dsm(c, y, m1) + dim(c, y, m1) <= dsm(c, y, m2), dsm(c, y, m2) + dim(c, y, m2) <= dsm(c, y, m1)),
+            And(y == y2, m1 != m2, m1 >= 1, m1 <= miy(c, y), m2 >= 1, m2 <= miy(c, y)),
+            Or(dsm(c, y, m1) + dim(c, y, m1) <= dsm(c, y2, m2), dsm(c, y2, m2) + dim(c, y2, m2) <= dsm(c, y, m1)),
         )
 
     def touch_year(self, eng: Any, y: Any) -> None:
@@ -181,9 +183,13 @@ def instantiate(abs_cals: list["AbsCal"], formulas: list[Any], rounds: int = 2) 
                     if args[0].get_id() == cid.get_id():
                         years[args[1].get_id()] = args[1]
                         months[(args[1].get_id(), args[2].get_id())] = (args[1], args[2])
+            # the ends of the calendar range always take part (range guards compare against them)
+            for yy in (ac.min_year, ac.max_year + 1):
+                yt = _t(yy)
+                years.setdefault(yt.get_id(), yt)
             ylist = [sym.mk_int(y) for y in years.values()]
-            if len(ylist) > 14:
-                ylist = ylist[:14]
+            if len(ylist) > 16:
+                ylist = ylist[:16]
             for y in ylist:
                 new.extend(ac.ax_year(y))
             for i in range(len(ylist)):
@@ -194,8 +200,7 @@ def instantiate(abs_cals: list["AbsCal"], formulas: list[Any], rounds: int = 2) 
                 new.append(ac.ax_month(y, m))
             for i in range(len(mlist)):
                 for j in range(i + 1, len(mlist)):
-                    if _key(mlist[i][0]) == _key(mlist[j][0]):
-                        new.append(ac.ax_disj(mlist[i][0], mlist[i][1], mlist[j][1]))
+                    new.append(ac.ax_disj(mlist[i][0], mlist[i][1], mlist[j][1], mlist[j][0]))
         for f in new:
             if f is True:
                 continue
@@ -356,8 +361,11 @@ def install(eng: Any) -> None:
         ac = cal_of(self_)
         y, m, d = comps(ymd)
         eng.oblige(ac.valid_date(y, m, d), "CAL.pre._add_months: valid date", kind="callee-pre", site=eng.cur_site())
+        if not sym.is_sym(months) and months == 0:
+            return ymd
         args = [_t(ac.cid), _t(y), _t(m), _t(d), _t(months)]
         ok = sym.mk_bool(AM_OK(*args))
+        eng.assume(Implies(months == 0, And(ok, sym.mk_int(AM[0](*args)) == y, sym.mk_int(AM[1](*args)) == m, sym.mk_int(AM[2](*args)) == d)))
         if not eng.truth(ok):
             eng.raise_(OverflowError, "Date computation would overflow calendar bounds.")
         y2, m2, d2 = (sym.mk_int(f(*args)) for f in AM)
@@ -370,7 +378,22 @@ def install(eng: Any) -> None:
         y1, m1, d1 = comps(start)
         y2, m2, d2 = comps(end)
         eng.oblige(And(ac.valid_date(y1, m1, d1), ac.valid_date(y2, m2, d2)), "CAL.pre._months_between: valid dates", kind="callee-pre", site=eng.cur_site())
-        return sym.mk_int(MB(_t(ac.cid), _t(y1), _t(m1), _t(d1), _t(y2), _t(m2), _t(d2)))
+        r = sym.mk_int(MB(_t(ac.cid), _t(y1), _t(m1), _t(d1), _t(y2), _t(m2), _t(d2)))
+        # AX-MB (obligation of every calculator class, contracts/c09_calculators.py): adding the result to `start`
+        # succeeds and lands between start and end; the sign of the result points towards `end`
+        args = [_t(ac.cid), _t(y1), _t(m1), _t(d1), _t(r)]
+        ay, am, ad = (sym.mk_int(f(*args)) for f in AM)
+        ac.touch_month(eng, ay, am)
+        s, e, at = dse(ac.cid, y1, m1, d1), dse(ac.cid, y2, m2, d2), dse(ac.cid, ay, am, ad)
+        eng.assume(And(
+            sym.mk_bool(AM_OK(*args)),
+            ac.valid_date(ay, am, ad),
+            Implies(s <= e, And(r >= 0, s <= at, at <= e)),
+            Implies(s > e, And(r <= 0, e <= at, at <= s)),
+            Implies(r == 0, And(ay == y1, am == m1, ad == d1)),
+            Implies(s == e, r == 0),
+        ))
+        return r
 
     eng.func_models[vars(cls)["_set_year"]] = m_set_year
     eng.func_models[vars(cls)["_add_months"]] = m_add_months
